@@ -49,9 +49,12 @@ func opLogOf(a *AirNode) string {
 		rs = append(rs, r)
 	}
 	sort.Strings(rs)
-	var sb strings.Builder
+	// round ids are not part of the comparison (an id is the hash of a proposal that
+	// carries its creation time, which differs between two runs): the rounds' logs are
+	// compared as a multiset
+	var per []string
 	for _, r := range rs {
-		fmt.Fprintf(&sb, "%.6s:", r)
+		var sb strings.Builder
 		commits := 0
 		for _, o := range lg[r] {
 			if string(o.Type) == string(dpf.StateDkgCommitsAwaitConfirmations) {
@@ -66,9 +69,10 @@ func opLogOf(a *AirNode) string {
 			}
 			fmt.Fprintf(&sb, "%s,", o.Type)
 		}
-		sb.WriteString(";")
+		per = append(per, sb.String())
 	}
-	return sb.String()
+	sort.Strings(per)
+	return strings.Join(per, ";")
 }
 
 func shareOf(a *AirNode, round string) string {
@@ -95,9 +99,10 @@ func runC12World(w *World, tier string, crashAt []int, out *c12Out) (bool, inter
 	so := &signOracle{c: c, prop: "C12"}
 	so.install()
 	round := ""
+	var earlierRounds []string
 	// what every participant publishes as commitments
 	w.Board.OnAppend = append(w.Board.OnAppend, func(m storage.Message, by int) {
-		if by >= 0 && m.Event == string(dpf.EventDKGCommitConfirmationReceived) {
+		if by >= 0 && m.Event == string(dpf.EventDKGCommitConfirmationReceived) && m.DkgRoundID == round {
 			var req requests.DKGProposalCommitConfirmationRequest
 			if json.Unmarshal(m.Data, &req) == nil {
 				if prev, ok := out.commits[req.ParticipantId]; ok && prev != string(req.Commit) {
@@ -179,7 +184,7 @@ func runC12World(w *World, tier string, crashAt []int, out *c12Out) (bool, inter
 			i := dead[0]
 			dead = dead[1:]
 			a := w.Airs[i]
-			rounds := []string{}
+			rounds := append([]string{}, earlierRounds...)
 			if round != "" {
 				rounds = append(rounds, round)
 			}
@@ -223,6 +228,17 @@ func runC12World(w *World, tier string, crashAt []int, out *c12Out) (bool, inter
 			} else {
 				w.CrashAirAt = 0
 			}
+		}
+	}
+	// the machines have served an earlier ceremony in the same process lifetime (its
+	// operation log is replayed as well after a restart)
+	if w.Tape.Bool(1, 3, "earlierCeremony") {
+		t0 := 2 + w.Tape.Choose(n-1, "t0")
+		if r0, rep0 := c.StartDKG(w.Tape.Choose(n, "proposer0"), t0, members); rep0.OK() {
+			earlierRounds = append(earlierRounds, r0)
+			c.RunDKG(r0, members, 600*n)
+			w.Advance(2 * time.Second)
+			w.Stats.Fault("multi-round")
 		}
 	}
 	var rep *APIResult
